@@ -403,6 +403,26 @@ Proof.
   split; [lia|apply B].
 Qed.
 
+(* the same chain with its middle term: the cost of the TRUE PER-KEY VERDICTS
+   (grants - written by the chain-level Allowed and by KAllowed alike, so this
+   is the bound that speaks about walks decomposed into their per-key bodies,
+   where [passes] stays empty) *)
+Lemma granted_weight_bound : forall f sched clk0,
+  wf_forest f = true -> clock_ok clk0 sched -> Forall act_ok sched ->
+  let w := fst (run f init sched) in
+  forall k d s, lookup (fst k) f = Some d ->
+    psum k s (passes w) <= gsum_w d k s (grants w) /\
+    gsum_w d k s (grants w) <= csum k s (charges w) /\ csum k s (charges w) <= q_max d.
+Proof.
+  intros f sched clk0 Hwf Hc Ha w k d s HL.
+  pose proof (run_winv f sched clk0 init Hwf (Inv_init f clk0 (wf_forest_quotas f Hwf)) (WInvW_init f) Hc Ha) as HW.
+  fold w in HW. destruct (HW k d HL) as [W1 W2 W3].
+  destruct (window_bound f sched clk0 Hwf Hc k d HL) as (B & _). fold w in B.
+  specialize (W2 s). specialize (W3 s). unfold pak, grk, chk in *.
+  rewrite psum_filter, gsum_w_filter in W3. rewrite gsum_w_filter, csum_filter in W2.
+  split; [exact W3|]. split; [exact W2|apply B].
+Qed.
+
 End Weighted.
 
 (* counts, for every quota (also custom counters) *)
